@@ -50,6 +50,8 @@ type VC struct {
 	defs     map[string]string
 	lemma    map[int]bool // assumption indices that are proved-elsewhere lemmas
 	lastType map[string]types.Type
+	oblNames map[string]int
+	lastState map[string]*State // state right after the most recent call counted under a label
 	labels   map[string]bool // ghost call-history labels the contract under verification uses
 	curPos   token.Pos
 }
@@ -129,6 +131,13 @@ func (vc *VC) oblige(st *State, name, kind string, cond Term, clause string) {
 	}
 	if cond == tTrue {
 		// still recorded: counts as trivially discharged by construction
+	}
+	if vc.oblNames == nil {
+		vc.oblNames = map[string]int{}
+	}
+	vc.oblNames[name]++
+	if n := vc.oblNames[name]; n > 1 {
+		name = fmt.Sprintf("%s~%d", name, n)
 	}
 	vc.obls = append(vc.obls, &Obligation{
 		Name: name, Kind: kind, Goal: tImp(st.pc, cond), NAssume: len(vc.assumes),
